@@ -31,6 +31,9 @@ SubstrateOps(T) ==
     \cup {[op |-> "RemoveComponent", n |-> n, name |-> c] : n \in Nodes(T), c \in CompNames}
     \cup {[op |-> "AddStorage", n |-> n, name |-> "st1"] : n \in Nodes(T)}
     \cup {[op |-> "AddNodeService", n |-> n, name |-> "ns1", nstype |-> t] : n \in Nodes(T), t \in {"MPLS", "VLAN"}}
+    \* caller-supplied ids that collide across classes
+    \cup {[op |-> "AddNode", name |-> "n2", site |-> "S1", ntype |-> "Server", rp |-> <<>>, cid |-> "X"]}
+    \cup {[op |-> "AddNodeService", n |-> n, name |-> "ns2", nstype |-> "MPLS", cid |-> "X"] : n \in Nodes(T)}
     \cup {[op |-> "RemoveNodeService", n |-> n, name |-> "ns1"] : n \in Nodes(T)}
     \cup {[op |-> "AddInterface", s |-> s, name |-> i, itype |-> "TrunkPort"] : s \in NodeSvcs(T), i \in {"i1", "i2", "!x"}}
     \cup {[op |-> "AddLink", name |-> l, ltype |-> lt, ifs |-> ifs] : l \in {"l1"}, lt \in {"Patch", "L2Path"},
